@@ -31,6 +31,8 @@ for vf in sorted(glob.glob('/tmp/mut/*/out/m*/verify.json')):
         },
         'checks_run': old.get('checks_run', {}),
     }
+    if old.get('note'):
+        m['note'] = old['note']
     for c, r in v.get('checks', {}).items():
         c = c.split(':')[0]
         m['checks_run'].setdefault(c, {})[r['tier'] + '@' + r.get('stage', 'first')] = 'caught' if r['exit'] == 1 else f'missed (exit {r["exit"]})'
